@@ -1,6 +1,6 @@
-\* exhaustive design check (C19), thorough: every byte string over bases 2..4, part sizes 1..4
+\* exhaustive design check (C19), thorough: every byte string over bases 2..5, part sizes 1..4
 CONSTANTS
-  Bs = {2,3,4}
+  Bs = {2,3,4,5}
   Ps = {1,2,3,4}
   Slack = 2
 INIT Init
